@@ -295,16 +295,15 @@ pub fn profile() -> &'static str {
 pub fn run_check(ctx: &Ctx, child: bool) {
     ctx.set_rule("inputs: arbitrary Unicode strings, printable-ASCII noise, token soups of up to 40 tokens (numbers, vocabulary words, operators, parentheses, braces, commas, %, to, function names, fact words, multi-byte and unknown characters, Unicode blanks) and well-formed expressions with one or two token mutations; every input is passed through a sanitiser that enforces the stated bounds (power operator followed by an integer of <= 2 digits with product <= 1000, <= 2 digits after a comma, literal exponents of <= 3 digits); oracle: no panic, parse succeeds, the result sequence ends, every value displays, every error has a message and a range inside the input on char boundaries; run in a debug-assertion build and in a release build, plus a sample through the real binary; non-trivial = >= 3 tokens and at least one result that is not a plain syntax error; distinct by input text (per profile)");
     ctx.assume("a watchdog (30 s per case) turns a hang into exit 2 (inconclusive), never a violation");
-    let db = shared_db();
     let corpus: Vec<(String, StrCase)> = load_corpus("C11");
     let cases: Vec<StrCase> = corpus.into_iter().map(|c| c.1).collect();
-    ctx.run_list("corpus", &cases, |c| check_str(db, &c.input), |c| to_json(c));
+    ctx.run_list("corpus", &cases, |c| check_str(shared_db(), &c.input), |c| to_json(c));
     let n = ctx.tier.pick(200_000u64, 4_000_000);
-    ctx.run_gen("soup", || soup().prop_map(|input| StrCase { input }), n, |c| check_str(db, &c.input), |c| to_json(c));
-    ctx.run_gen("mutated-well-formed", || mutated().prop_map(|input| StrCase { input }), n / 2, |c| check_str(db, &c.input), |c| to_json(c));
-    ctx.run_gen("ascii-noise", || "[ -~]{0,40}".prop_map(|s| StrCase { input: sanitize(&s) }), n / 4, |c| check_str(db, &c.input), |c| to_json(c));
-    ctx.run_gen("unicode", || "\\PC{0,30}".prop_map(|s| StrCase { input: sanitize(&s) }), n / 8, |c| check_str(db, &c.input), |c| to_json(c));
-    ctx.run_gen("any-string", || any::<String>().prop_map(|s| StrCase { input: sanitize(&s) }), n / 8, |c| check_str(db, &c.input), |c| to_json(c));
+    ctx.run_gen("soup", || soup().prop_map(|input| StrCase { input }), n, |c| check_str(shared_db(), &c.input), |c| to_json(c));
+    ctx.run_gen("mutated-well-formed", || mutated().prop_map(|input| StrCase { input }), n / 2, |c| check_str(shared_db(), &c.input), |c| to_json(c));
+    ctx.run_gen("ascii-noise", || "[ -~]{0,40}".prop_map(|s| StrCase { input: sanitize(&s) }), n / 4, |c| check_str(shared_db(), &c.input), |c| to_json(c));
+    ctx.run_gen("unicode", || "\\PC{0,30}".prop_map(|s| StrCase { input: sanitize(&s) }), n / 8, |c| check_str(shared_db(), &c.input), |c| to_json(c));
+    ctx.run_gen("any-string", || any::<String>().prop_map(|s| StrCase { input: sanitize(&s) }), n / 8, |c| check_str(shared_db(), &c.input), |c| to_json(c));
     if !child {
         // sample through the real binary (built with debug assertions)
         let xdg = format!("{}/build/xdg/C11-{}", crate::runner::verif_root(), std::process::id());
